@@ -289,3 +289,27 @@ PROXY_ENV = ["http_proxy", "https_proxy", "HTTP_PROXY", "HTTPS_PROXY", "no_proxy
 def scrub_env():
     for k in PROXY_ENV:
         os.environ.pop(k, None)
+
+
+def contracts_workload(res, names):
+    """Extra workload: the repository's own tests run with the wsverif
+    contracts on the real functions (see wsverif/contracts.py).  Only the
+    contracts listed in `names` are attributed to the calling check."""
+    from . import contracts, core
+
+    try:
+        d = contracts.under_repo_tests(core.REPO, names)
+    except Exception as e:  # noqa
+        res.notes["contracts_under_repo_tests"] = f"not run: {type(e).__name__}: {e}"
+        return
+    if not d.get("have"):
+        res.notes["contracts_under_repo_tests"] = "icontract not installed (setup_cmd not run?): contract workload skipped"
+        return
+    for n in names:
+        res.count("contract_evals_under_repo_tests:" + n, d["counters"].get(n, 0))
+    res.notes["contracts_under_repo_tests"] = {"pytest_exit": d["pytest_exit"], "tail": d["tail"]}
+    if d["pytest_exit"] != 0:
+        mine = [t for t in d["failed_tests"]]
+        broken = [n for n in names if any(("Broken_" in t) for t in mine)]
+        # a repository test that fails only with the contracts on: either the contract is too strict or a defect the tests do not assert
+        res.violation("contract-broken-under-repo-tests", f"repository tests failed with contracts on: {mine[:4]} {d['tail']}", {"failed": mine}, contracts=list(names))
